@@ -5,6 +5,7 @@
   quantifying over all action sequences covers every placement of the instant.
 -/
 import Proofs.Lemmas.InprocAll
+import Proofs.Lemmas.InprocUnaryAll
 
 namespace InprocStream
 
@@ -80,3 +81,64 @@ example : ∃ s, run (init 1 1 true) [.sSendBegin 9, .sWriteEnq, .cHeaderBegin, 
   exact ⟨_, rfl, rfl, rfl⟩
 
 end InprocStream
+
+/-! ### the unary call (`Channel.Invoke`): cancellation racing completion -/
+namespace InprocUnary
+open InprocStream (Reason HErr Res codeOf translate)
+
+/-- **Never a mixture.** For every interleaving of the server goroutine's frame writes (each a
+    choice between enqueue and skip-on-done), the caller's loop and the cancellation instant:
+    whatever `Invoke` returns is either the cancellation status of its (done) context, or the
+    handler's real result — and if that result is success, the caller holds the response and ALL
+    headers and trailers the handler set. -/
+theorem C04_unary_race_no_mixture (cap : Nat) (s : St) (h : Reachable cap s) (r : Res) (hr : s.result = some r) :
+    (∃ rr, s.ctx = some rr ∧ r = ctxStatus rr) ∨
+    (∃ ret, s.hRet = some ret ∧ r = expectedU ret ∧ (r = .ok → Complete s)) := by
+  obtain ⟨_, _, hok⟩ := all_unary cap s h
+  rcases hok.res r hr with h1 | ⟨ret, h1, h2⟩
+  · exact Or.inl h1
+  · exact Or.inr ⟨ret, h1, h2, fun hrk => hok.okc (hrk ▸ hr)⟩
+
+theorem translate_ne_eof (e : HErr) : translate e ≠ .eof := by cases e <;> simp [translate]
+theorem translate_ne_ctxErr (e : HErr) (rr : Reason) : translate e ≠ .ctxErr rr := by cases e <;> simp [translate]
+theorem expectedU_ne_eof (ret : Option Nat × Option HErr) : expectedU ret ≠ .eof := by
+  obtain ⟨v, e⟩ := ret
+  cases v <;> cases e <;> simp [expectedU, translate_ne_eof]
+theorem expectedU_ne_ctxErr (ret : Option Nat × Option HErr) (rr : Reason) : expectedU ret ≠ .ctxErr rr := by
+  obtain ⟨v, e⟩ := ret
+  cases v <;> cases e <;> simp [expectedU, translate_ne_ctxErr]
+
+/-- **Never a bare io.EOF, never a non-status context error.** -/
+theorem C04_unary_never_bare_eof (cap : Nat) (s : St) (h : Reachable cap s) :
+    s.result ≠ some .eof ∧ ∀ rr, s.result ≠ some (.ctxErr rr) := by
+  obtain ⟨_, _, hok⟩ := all_unary cap s h
+  refine ⟨?_, ?_⟩
+  · intro hr
+    rcases hok.res _ hr with ⟨rr, _, h2⟩ | ⟨ret, _, h2⟩
+    · simp [ctxStatus] at h2
+    · exact expectedU_ne_eof ret h2.symm
+  · intro rr hr
+    rcases hok.res _ hr with ⟨r2, _, h2⟩ | ⟨ret, _, h2⟩
+    · simp [ctxStatus] at h2
+    · exact expectedU_ne_ctxErr ret rr h2.symm
+
+/-- **Promptly**: once the context is done, the caller's loop can return without the server. -/
+theorem C04_unary_cancel_unblocks (s : St) (r : Reason) (hctx : s.ctx = some r) (hres : s.result = none) :
+    step s .cCtx = some ({ s with result := some (.status (codeOf r)) }, []) := by
+  simp [step, hres, hctx, ctxStatus]
+
+/-- The defect repaired by 313140f, kept as a counterexample on the pre-repair model: the trailers
+    frame is skipped after the cancellation, the caller's loop happens to see the closed channel,
+    and `Invoke` reports success without the trailers. -/
+theorem C04_old_code_mixture : ∃ s, run (initOld 1)
+    [.hSetTrailer 7, .hReturn (some 5) none, .wEnq, .cTake, .cancel .canceled, .wSkip, .wClose, .cClosed] = some s ∧
+    s.result = some .ok ∧ s.cTlr = none ∧ s.hTlr = [7] := by
+  exact ⟨_, rfl, rfl, rfl, rfl⟩
+
+/-- …the same schedule on the repaired model yields the cancellation status. -/
+example : ∃ s, run (init 1)
+    [.hSetTrailer 7, .hReturn (some 5) none, .wEnq, .cTake, .cancel .canceled, .wSkip, .wClose, .cClosed] = some s ∧
+    s.result = some (.status 1) := by
+  exact ⟨_, rfl, rfl⟩
+
+end InprocUnary
